@@ -3,6 +3,15 @@ import BqVerif.Proofs.GraphBasic
 `CouplingGraph.get_subgraphs_of_size` / `_location_search` (graph.py lines 434-519):
 the model `G.subgraphsOfSize` returns exactly the (sorted) vertex sets of size `k` that induce a
 connected subgraph, without duplicates.
+
+MODEL DEVIATION (reported, model left unchanged): the model keeps `path` as a *sorted* list, so a
+location is identified with its vertex set.  Python builds `CircuitLocation(list(curr_path))` from a
+`set[int]`, whose iteration order depends on the insertion history once hash slots collide
+(vertices ≥ 8), and `CircuitLocation` equality is order sensitive.  Observed with the real code:
+`CouplingGraph([(0,8)], 9).get_subgraphs_of_size(2) == [(0, 8), (8, 0)]` and
+`CouplingGraph([(0,8),(0,16),(8,16)], 17).get_subgraphs_of_size(3)` returns all 6 orderings of
+{0,8,16}.  So `subgraphsOfSize_nodup` (no vertex set returned twice) holds for the model but NOT for
+the Python function on graphs with ≥ 9 qudits; soundness/completeness "as vertex sets" are unaffected.
 -/
 namespace BqVerif.Graph
 
